@@ -61,7 +61,10 @@ ToyTable == LET r == Recalc(desc.zones, desc["end"])
 
 Table == /\ Rec[l].ev = "Table"
          /\ IF Rec[l].ok
-            THEN /\ sp' = Rec[l].sp /\ end' = Rec[l]["end"] /\ tbl' = Rec[l].pts
+            THEN \* the recorded speed points carry the signed value PathTpc stores; the limit is its magnitude
+                 \* (min_speed, track/link/speed/speed_limit.rs:3-9)
+                 /\ sp' = [j \in 1..Len(Rec[l].sp) |-> <<Rec[l].sp[j][1], Abs(Rec[l].sp[j][2])>>]
+                 /\ end' = Rec[l]["end"] /\ tbl' = Rec[l].pts
                  /\ Report(Names(<< <<"TableSafe", TableSafeOf(sp', end', tbl')>>,
                                     <<"TargetLeLimit", TargetLeLimitOf(tbl')>>,
                                     <<"TableMonotone", MonotoneOf(tbl')>> >>))
